@@ -286,7 +286,8 @@ theorem bAtom_tAtom (e : Expr) (g : Nat) (hw : wAtom recW e = true) (hg : 2 * si
       simp [tAtom, tAtomInner] at hg
       obtain ⟨g', rfl⟩ : ∃ g', g = g' + 6 := ⟨g - 6, by omega⟩
       bsimp [bAtom, bLiteral, tAtom, tAtomInner]
-      simp [Names.nd, Names.lf, getText, String.join]
+      simp only [wAtom, Bool.and_eq_true, Bool.not_eq_true'] at hw
+      simp [Names.nd, Names.lf, getText, String.join, hw.2]
   | list es =>
     simp only [wAtom] at hw
     simp [tAtom, tAtomInner] at hg
